@@ -26,8 +26,11 @@ def run(F, X, rep):
     H.u3_reject_before_add(C, rep, "C04-G", which=("expiry",))
     # "chain height known at that time" is the height cell's value: it must be the best height the node has reported,
     # i.e. the cell never moves backwards (C20-W)
+    H.q_request_fields_verbatim(C, rep, "C04-Q")
     import p_c20
     p_c20.w_single_guarded_writer(F, X, rep, "C04-H")
+    # "chain height known at that time": initialised by a successful query before the manager runs, refreshed by the poll loop
+    p_c20.l_poll_loop(F, X, rep, "C04-L")
     # "configured safety delta", "the policy's CLTV delta": the options are what reaches params.cltv_delta / the policy
     import p_c19
     mb = p_c19.main_body(F)
